@@ -491,6 +491,9 @@ type FaultCase struct {
 	Syscall  string      `json:"syscall"`
 	When     int         `json:"when"`
 	Errno    string      `json:"errno"`
+	// Persistent: the When-th call and every later call of Syscall fail (a bounded retry loop
+	// must not turn repeated failure into success)
+	Persistent bool `json:"persistent,omitempty"`
 }
 
 const traceSet = "openat,write,pwrite64,pread64,pwritev,preadv,pwritev2,preadv2,fsync,fdatasync,sync_file_range,syncfs,sync,ftruncate,fallocate,close"
@@ -535,6 +538,7 @@ func execFault(c FaultCase) (fr *faultRun, image string, cleanup func(), infra s
 	spec := inject.Spec{Mode: inject.Trace, Argv: []string{childBin(), "script", sf, image}, Dir: dir, TraceSet: traceSet, Timeout: 60 * time.Second}
 	if c.Syscall != "" {
 		spec.Mode, spec.Syscall, spec.When, spec.Errno = inject.Error, c.Syscall, c.When, c.Errno
+		spec.Persistent = c.Persistent
 	}
 	res, err := inject.Run(spec)
 	if err != nil {
@@ -564,7 +568,7 @@ func execFault(c FaultCase) (fr *faultRun, image string, cleanup func(), infra s
 		if cur >= 0 {
 			fr.per[cur] = append(fr.per[cur], tc)
 		}
-		if tc.Inject {
+		if tc.Inject && !fr.injSeen {
 			fr.injSeen = true
 			fr.injAt = cur
 			fr.injCall = tc
@@ -663,6 +667,11 @@ walk:
 		here := injected && i == fr.injAt
 		if here {
 			hitKind = call.Kind
+		}
+		if c.Persistent && injected && i > fr.injAt {
+			// every later call of the failed system call fails too: nothing more to judge
+			skipFinal = true
+			break walk
 		}
 		if le.status == "" {
 			return "", fmt.Sprintf("child log has no outcome for call %d (%s)", i, call.Kind), hitKind, run
@@ -782,6 +791,9 @@ func checkFault(t ev.TB, c FaultCase) *faultRun {
 		ev.Label("fault:dry-run")
 	} else {
 		ev.Label("fault:" + c.Syscall + ":" + c.Errno)
+		if c.Persistent {
+			ev.Label("fault:persistent")
+		}
 		if hit != "" {
 			ev.Label("fault-hit-in:" + hit)
 		}
@@ -834,6 +846,7 @@ func TestFaults(t *testing.T) {
 	rapid.Check(t, func(t *rapid.T) {
 		base := genFaultBase(t)
 		errIdx := rapid.SliceOfN(rapid.IntRange(0, len(errnos)-1), 40, 40).Draw(t, "errnos")
+		persist := rapid.SliceOfN(rapid.Bool(), 40, 40).Draw(t, "persistent")
 		// dry run: oracle on the un-injected script, and the occurrence counts
 		fr := checkFault(t, base)
 		if fr == nil {
@@ -845,6 +858,7 @@ func TestFaults(t *testing.T) {
 			for when := 1; when <= n; when++ {
 				c := base
 				c.Syscall, c.When, c.Errno = sc, when, errnos[errIdx[point%len(errIdx)]]
+				c.Persistent = persist[point%len(persist)]
 				point++
 				checkFault(t, c)
 			}
